@@ -96,6 +96,16 @@ def toolchain():
                 boots=os.path.join(snap, "bin", "dora-boots-compiler"))
 
 
+def content_tag(programs):
+    """cache key of a program family: hash of the program texts (an edit of gen/progs.py that does not change
+    the generated programs keeps the cache warm)"""
+    h = hashlib.sha256()
+    for p in programs:
+        h.update(p.name.encode())
+        h.update(p.dora.encode())
+    return h.hexdigest()[:8]
+
+
 def gen_hash():
     h = hashlib.sha256(open(os.path.join(C.VERIF, "gen", "progs.py"), "rb").read())
     return h.hexdigest()[:8]
@@ -272,18 +282,25 @@ def build_results(tc, programs, cdir, batch=True):
             r = f.result()
             by_name[r["name"]] = r
     results = [by_name[p.name] for p in programs]
-    # a time-out under machine load is not a verdict: run those again, alone, with a long limit
+    # a time-out under machine load is not a verdict: run those again (own executable, long limit, few at a time)
     global RUN_TIMEOUT
-    for res in results:
-        for b in BACKENDS:
-            if res["obs"][b].get("rc") == "timeout":
-                pdir = os.path.join(cdir, res["name"])
-                old, RUN_TIMEOUT = RUN_TIMEOUT, 180
-                try:
-                    res["obs"][b] = compile_and_run(tc, os.path.join(pdir, "prog.dora"), pdir, b)
-                finally:
-                    RUN_TIMEOUT = old
-                save_result(cdir, res)
+    late = [(res, b) for res in results for b in BACKENDS if res["obs"][b].get("rc") == "timeout"]
+    if late:
+        old, RUN_TIMEOUT = RUN_TIMEOUT, 240
+
+        def again(rb):
+            res, b = rb
+            pdir = os.path.join(cdir, res["name"])
+            res["obs"][b] = compile_and_run(tc, os.path.join(pdir, "prog.dora"), pdir, b)
+        try:
+            with cf.ThreadPoolExecutor(max_workers=6) as ex:
+                list(ex.map(again, late))
+        finally:
+            RUN_TIMEOUT = old
+        for res in set(id(r) for r, _ in late):
+            pass
+        for res, _ in late:
+            save_result(cdir, res)
     return results
 
 
@@ -310,7 +327,7 @@ def reduce_compile_crash(tc, prog, backend, site, workdir):
             pass
         return (not ok) and crash_site(dict(status="compile-failed", compile_log=log)) == site
     try:
-        out = shrink_lines(prog.dora.splitlines(), pred, budget=150)
+        out = shrink_lines(prog.dora.splitlines(), pred, budget=60)
         return "\n".join(l for l in out if l.strip()) + "\n"
     except Exception:
         return None
@@ -325,8 +342,9 @@ def crash_site(obs):
     m = re.search(r"panicked at ([^\s:]+:\d+)", text)
     if m:
         return "panic@" + m.group(1)
-    m = re.search(r"fatal error: ([^\n]*)\n((?:\s+.*\n)+)", text)
-    if m:
+    # a message line followed by an indented stack trace: "fatal error: ..." or a trap message ("assert failed")
+    m = re.search(r"(?:^|\n)((?:fatal error: )?[a-z][^\n]*)\n((?:    \S[^\n]*\n)+)", text)
+    if m and (m.group(1).startswith("fatal error: ") or m.group(1) in TRAP_MSG.values()):
         frames = [f.strip().split(" (")[0] for f in m.group(2).splitlines()]
         frames = [f for f in frames if f and not f.startswith("std::")]
         return re.sub(r"[^A-Za-z0-9_:.-]+", "_", (frames[0] if frames else m.group(1)))[:60]
@@ -501,7 +519,7 @@ def run(ctx):
         programs = [G.gen_program(r.get("gen_seed", ctx.seed), r["index"])] if "index" in r else []
     else:
         programs = [G.gen_program(ctx.seed, i) for i in range(n)]
-    cdir = cache_dir(tc, ctx.seed)
+    cdir = cache_dir(tc, ctx.seed, content_tag(programs))
     results = build_results(tc, programs, cdir)
     C.log("[c01] %d programs compiled+run (or cached) %.0fs" % (len(programs), time.time() - t0))
     mini = run_mini(drv, programs)
